@@ -31,6 +31,10 @@ type Pipe struct {
 	// OnWrite / OnFlush, when set, are called outside mu and may block.
 	OnWrite func(b []byte) error
 	OnFlush func(ctx context.Context) error
+	// OnOpen / OnClose, when set, are called outside mu before the state change and may block (a stalled
+	// connect / lingering close); a non-nil error makes the call fail.
+	OnOpen  func() error
+	OnClose func() error
 
 	Written [][]byte
 	Opens   int
@@ -46,6 +50,14 @@ func New() *Pipe {
 }
 
 func (p *Pipe) Open() error {
+	p.mu.Lock()
+	ho := p.OnOpen
+	p.mu.Unlock()
+	if ho != nil {
+		if err := ho(); err != nil {
+			return err
+		}
+	}
 	p.mu.Lock()
 	defer p.mu.Unlock()
 	p.Opens++
@@ -68,6 +80,14 @@ func (p *Pipe) Open() error {
 func (p *Pipe) IsOpen() bool { p.mu.Lock(); defer p.mu.Unlock(); return p.open }
 
 func (p *Pipe) Close() error {
+	p.mu.Lock()
+	hc := p.OnClose
+	p.mu.Unlock()
+	if hc != nil {
+		if err := hc(); err != nil {
+			return err
+		}
+	}
 	p.mu.Lock()
 	defer p.mu.Unlock()
 	p.Closes++
